@@ -1,9 +1,13 @@
 (* M3 - the parent-side control state machine of thread and process workers:
    is_alive / wait / terminate / close against a child of a given class.
-   Hand-written from ThreadWorker / ProcessWorker / PersistentProcessWorker (pinned by
-   tools/pin.py), compared with the real methods driving a scripted child (harness/props/c04.py). *)
+   The bodies of ThreadWorker.wait/terminate and ProcessWorker.wait/terminate are GENERATED (Gen/Ctrl.v: lists of control
+   instructions, tools/py2coq/gen_ctrl.py) and interpreted here; is_alive, the persistent kinds' wait/close and the
+   reaction table of the child classes are hand-written (pinned by tools/pin.py).  Compared with the real methods
+   driving a scripted child (harness/props/c04.py). *)
 From Coq Require Export List Bool Arith Lia.
 Export ListNotations.
+From PW Require Export Ctrl.Instr.
+From PW Require Import Gen.Ctrl.
 
 (* how the child reacts; all classes die on SIGKILL, all but Stopped on SIGTERM *)
 Inductive cclass :=
@@ -52,6 +56,27 @@ Definition after_close (k : kind) (s : pw) : pw :=
   | _ => s
   end.
 
+(* one generated instruction: [t] is the caller's timeout, [force] its force flag *)
+Fixpoint interp1 (k : kind) (t : tmo) (force : bool) (i : cinstr) (s : pw) : pw :=
+  match i with
+  | CPutTerminate | CSelfSigterm | CEarlyResult => s
+  | CAck bounded =>
+      (* the control thread acknowledges and raises the exception in the main thread - if it can run at all *)
+      let s1 := with_log s [BPoll (if bounded then t else TInf)] in
+      if acks (cls s1) && dies_gracefully (cls s1) then set_alive s1 false else s1
+  | CRaise => if dies_gracefully (cls s) then set_alive s false else s
+  | CRelease => after_close k s
+  | CJoin bounded => with_log s [BJoin (if bounded then t else TInf)]
+  | CSigterm => if dies_on_sigterm (cls s) then set_alive s false else s
+  | CSigkill => set_alive s false
+  | CIfAlive body =>
+      if alive s then (fix go (l : list cinstr) (s : pw) : pw := match l with [] => s | x :: r => go r (interp1 k t force x s) end) body s else s
+  | CIfForce body =>
+      if force then (fix go (l : list cinstr) (s : pw) : pw := match l with [] => s | x :: r => go r (interp1 k t force x s) end) body s else s
+  end.
+Fixpoint interp (k : kind) (t : tmo) (force : bool) (l : list cinstr) (s : pw) : pw :=
+  match l with [] => s | x :: r => interp k t force r (interp1 k t force x s) end.
+
 Definition step (k : kind) (s : pw) (o : op) : pw * bool :=
   match o with
   | IsAlive => is_alive s
@@ -66,25 +91,20 @@ Definition step (k : kind) (s : pw) (o : op) : pw * bool :=
   | Wait t =>
       let '(s1, a) := is_alive s in
       if negb a then (s1, true)
-      else finish (with_log (after_close k s1) [BJoin t])
+      else
+        match k with
+        | KThread => finish (interp k t false gen_thread_wait s1)
+        | KProcess => finish (interp k t false gen_process_wait s1)
+        | _ => (* the persistent kinds override wait(): close(), then join *)
+            finish (with_log (after_close k s1) [BJoin t])
+        end
   | Terminate t force =>
       let '(s1, a) := is_alive s in
       if negb a then (s1, true)
       else
         match k with
-        | KThread | KPersistentThread =>
-            (* foreign_raise + _release_child + join(timeout); force (SIGTERM to the own process) is outside the model *)
-            let s2 := if dies_gracefully (cls s1) then set_alive s1 false else s1 in
-            finish (with_log (after_close k s2) [BJoin t])
-        | _ =>
-            (* put('terminate'); poll(timeout) for the acknowledgement; release; join; SIGTERM; join; SIGKILL; join *)
-            let s2 := with_log s1 [BPoll t] in
-            let s3 := if acks (cls s2) && dies_gracefully (cls s2) then set_alive s2 false else s2 in
-            let s4 := with_log (after_close k s3) [BJoin t] in
-            if alive s4 && force then
-              let s5 := with_log (if dies_on_sigterm (cls s4) then set_alive s4 false else s4) [BJoin t] in
-              if alive s5 then finish (with_log (set_alive s5 false) [BJoin t]) else finish s5
-            else finish s4
+        | KThread | KPersistentThread => finish (interp k t force gen_thread_terminate s1)
+        | _ => finish (interp k t force gen_process_terminate s1)
         end
   end.
 
